@@ -169,6 +169,13 @@ def r153(ctx, rep):
             for k in calls[0].keywords:
                 if k.arg == 'mode':
                     got = norm(k.value)
+            if got is None:
+                # positional: find the index of `mode` in the writer's signature
+                w = fn.module.functions.get(callee)
+                if w is not None and 'mode' in w.posparams:
+                    i = w.posparams.index('mode')
+                    if i < len(calls[0].args) and not any(isinstance(a, ast.Starred) for a in calls[0].args[:i + 1]):
+                        got = norm(calls[0].args[i])
         if got == mode:
             rep.held('R15.3', fn, '%s(..., mode=%s)' % (callee, mode), '', calls[0])
         else:
